@@ -5,12 +5,19 @@
  *                        ∧ the call-back, asked ONCE for (pdu, algorithm of the received MAC, key), said OK
  *                        ∧ received MAC equals the computed one.
  * Error codes as documented; the computed MAC is released exactly once on every path, nothing else is released. */
+#ifndef C06_VH_CB
+#define C06_VH_CB c06_calc
+#endif
+/* verdict of a replaced/enforced pdu_verifyHmac in terms of its ghost record */
+#define C06_VH_ACCEPTED (g_vh_calc_calls == 1 && g_vh_calc_res == KSI_OK && g_vh_eq_calls == 1 && g_vh_eq_res)
 #define C06_VH_ARGS_OK (ctx != NULL && hmac != NULL && key != NULL && calculateHmac != NULL && pdu != NULL)
 #define C06_VH_ALG_OK  (conf_alg == KSI_HASHALG_INVALID_VALUE || (KSI_HashAlgorithm)hmac->imprint[0] == conf_alg)
 int pdu_verifyHmac(KSI_CTX *ctx, const KSI_DataHash *hmac, const char *key, KSI_HashAlgorithm conf_alg,
 		int (*calculateHmac)(const void*, int, const char*, KSI_DataHash**), void *pdu)
 __CPROVER_requires(hmac == NULL || __CPROVER_is_fresh(hmac, sizeof(*hmac)))
-__CPROVER_requires(calculateHmac == NULL || calculateHmac == c06_calc)
+/* the call-back: in the enforcing job the arbitrary harness call-back c06_calc; where this contract REPLACES the
+ * call (KSI_*Pdu_verify jobs) C06_VH_CB is the call-back the caller must pass, checked at the call site */
+__CPROVER_requires(calculateHmac == NULL || calculateHmac == C06_VH_CB)
 __CPROVER_requires(g_vh_calc_calls == 0 && g_vh_eq_calls == 0 && g_vh_free_calls == 0 && g_vh_free_foreign == 0 && g_vh_calc_out == NULL)
 /* the iff of the property */
 __CPROVER_ensures(IFF(__CPROVER_return_value == KSI_OK,
@@ -101,7 +108,8 @@ __CPROVER_ensures(IMPLIES(C06_V1_ON(t, OPT) && g_mac_calls == 1, \
 				g_mac_wit_byte == spec_pdu_v1_byte(C06_V1_HBYTES(t), C06_V1_HLEN(t), C06_V1_PBYTES(t), g_mac_wit)))) \
 __CPROVER_ensures(IMPLIES(C06_V1_ON(t, OPT) && \
 		!(key != NULL && hmac != NULL && t->header != NULL && (t->request != NULL || t->response != NULL)), \
-		__CPROVER_return_value == KSI_INVALID_ARGUMENT && g_mac_calls == 0)) \
+		__CPROVER_return_value != KSI_OK && g_mac_calls == 0 && \
+		IMPLIES(g_ser_calls == 0, __CPROVER_return_value == KSI_INVALID_ARGUMENT))) \
 __CPROVER_ensures(IMPLIES(C06_V1_ON(t, OPT), IFF(__CPROVER_return_value == KSI_OK, g_mac_calls == 1 && g_mac_res == KSI_OK))) \
 /* result */ \
 __CPROVER_ensures(IMPLIES(t != NULL && t->ctx != NULL && t->ctx->options[OPT] == KSI_PDU_VERSION_2, \
@@ -112,10 +120,15 @@ __CPROVER_ensures(IMPLIES(g_mac_calls == 1 && g_mac_res != KSI_OK, __CPROVER_ret
 __CPROVER_ensures(IMPLIES(g_ser_calls == 1 && g_ser_res[0] != KSI_OK && t->ctx->options[OPT] == KSI_PDU_VERSION_2, __CPROVER_return_value == g_ser_res[0])) \
 /* nothing is released through KSI_DataHash_free */ \
 __CPROVER_ensures(g_vh_free_calls == 0) \
-__CPROVER_assigns(*hmac, g_ser_calls, g_ser_obj, g_ser_tag, g_ser_tmpl, g_ser_res, g_ser_buf, g_ser_len, g_ser_shadow, \
-		g_hl_calls, g_hl_alg, g_mac_calls, g_mac_ctx, g_mac_alg, g_mac_key, g_mac_data, g_mac_len, g_mac_res, g_mac_out, \
-		g_mac_wit_byte, g_mac_wit_valid, g_vh_free_calls, g_vh_free_foreign);
+__CPROVER_assigns(*hmac, g_c06, g_vh_free_calls, g_vh_free_foreign);
 
+/* The clauses below dereference the PDU only under explicit non-NULL guards; the per-dereference safety checks
+ * that CBMC would generate for the *specification text* (about 900) are switched off for it - the checks of the
+ * real code are unaffected. */
+#pragma CPROVER check push
+#pragma CPROVER check disable "pointer"
+#pragma CPROVER check disable "pointer-primitive"
+#pragma CPROVER check disable "bounds"
 #ifdef C06_AGGR_CALC
 /* a request PDU carries a request or a configuration request, a response PDU a response or a configuration */
 #define C06_IS_CONF(t) ((t)->confRequest != NULL || (t)->confResponse != NULL)
@@ -133,3 +146,32 @@ C06_V2_CONTRACT(KSI_ExtendPdu_calculateHmac, KSI_ExtendPdu, KSI_OPT_EXT_PDU_VER,
 		KSI_TLV_TEMPLATE(KSI_ExtendReqPdu), KSI_TLV_TEMPLATE(KSI_ExtendRespPdu),
 		0x301, 0x302, KSI_TLV_TEMPLATE(KSI_ExtendReq), KSI_TLV_TEMPLATE(KSI_ExtendResp))
 #endif
+
+/* KSI_AggregationPdu_verify / KSI_ExtendPdu_verify (KSI_*Pdu_verifyHmac inlined, pdu_verifyHmac replaced by its contract):
+ * OK <=> header present ∧ MAC present ∧ pdu_verifyHmac accepted the MAC of THIS pdu under the key given and the
+ * MAC algorithm option of THIS service; without header or MAC nothing is verified and the answer is INVALID_FORMAT. */
+#define C06_VERIFY_CONTRACT(FN, PDU, ALGOPT) \
+int FN(const PDU *pdu, const char *pass) \
+__CPROVER_requires(g_vh_calc_calls == 0 && g_vh_eq_calls == 0 && g_vh_free_calls == 0 && g_vh_free_foreign == 0 && g_vh_calc_out == NULL) \
+__CPROVER_ensures(IFF(__CPROVER_return_value == KSI_OK, \
+		pdu != NULL && pass != NULL && pdu->header != NULL && pdu->hmac != NULL && C06_VH_ACCEPTED)) \
+__CPROVER_ensures(IMPLIES(__CPROVER_return_value == KSI_OK, \
+		g_vh_calc_pdu == (const void *)pdu && g_vh_calc_key == pass && g_vh_calc_alg == (int)pdu->hmac->imprint[0] && \
+		((KSI_HashAlgorithm)pdu->ctx->options[ALGOPT] == KSI_HASHALG_INVALID_VALUE || \
+		 (KSI_HashAlgorithm)pdu->hmac->imprint[0] == (KSI_HashAlgorithm)pdu->ctx->options[ALGOPT]))) \
+__CPROVER_ensures(IMPLIES(pdu == NULL || pass == NULL, __CPROVER_return_value == KSI_INVALID_ARGUMENT && g_vh_calc_calls == 0)) \
+__CPROVER_ensures(IMPLIES(pdu != NULL && pass != NULL && (pdu->header == NULL || pdu->hmac == NULL), \
+		__CPROVER_return_value == KSI_INVALID_FORMAT && g_vh_calc_calls == 0 && g_vh_eq_calls == 0)) \
+__CPROVER_ensures(IMPLIES(pdu != NULL && pass != NULL && pdu->header != NULL && pdu->hmac != NULL && \
+		(KSI_HashAlgorithm)pdu->ctx->options[ALGOPT] != KSI_HASHALG_INVALID_VALUE && \
+		(KSI_HashAlgorithm)pdu->hmac->imprint[0] != (KSI_HashAlgorithm)pdu->ctx->options[ALGOPT], \
+		__CPROVER_return_value == KSI_HMAC_ALGORITHM_MISMATCH)) \
+__CPROVER_assigns(g_vh_calc_calls, g_vh_calc_pdu, g_vh_calc_alg, g_vh_calc_key, g_vh_calc_res, g_vh_calc_out, \
+		g_vh_eq_calls, g_vh_eq_l, g_vh_eq_r, g_vh_eq_res, g_vh_free_calls, g_vh_free_foreign);
+#ifdef C06_AGGR_VERIFY
+C06_VERIFY_CONTRACT(KSI_AggregationPdu_verify, KSI_AggregationPdu, KSI_OPT_AGGR_HMAC_ALGORITHM)
+#endif
+#ifdef C06_EXT_VERIFY
+C06_VERIFY_CONTRACT(KSI_ExtendPdu_verify, KSI_ExtendPdu, KSI_OPT_EXT_HMAC_ALGORITHM)
+#endif
+#pragma CPROVER check pop
